@@ -149,6 +149,34 @@ let handle (line : string) : string =
   | ["g"; s] -> "c=" ^ c_sig !xcache (str_of_hex s)
   | ["FR"; h] -> (match parse_frame (str_of_hex h) with None -> "~" | Some f -> show_frame f)
   | ["TH"; h] -> (match parse_throwable (str_of_hex h) with None -> "~" | Some (c, m) -> hex_of_str c ^ ":" ^ tok_of_ostr m)
+  | "A" :: toks ->
+    (* a trace AST: e:<cls>:<msg|~>  f:<cls>:<meth>:<file>:<line>  c (start of the cause) *)
+    let parse_node toks =
+      (* returns (exc, frames, rest-after-this-node) *)
+      let exc = ref None and frames = ref [] and rest = ref toks in
+      let continue = ref true in
+      while !continue do
+        match !rest with
+        | [] -> continue := false
+        | "c" :: _ -> continue := false
+        | t :: tl ->
+          (match String.split_on_char ':' t with
+           | ["e"; c; m] -> exc := Some (str_of_hex c, ostr_of_tok m)
+           | ["f"; c; m; f; l] -> frames := (((str_of_hex c, str_of_hex m), Some (str_of_hex f)), n_of_dec l) :: !frames
+           | _ -> failwith ("bad trace token " ^ t));
+          rest := tl
+      done;
+      (!exc, List.rev !frames, !rest) in
+    let rec build toks =
+      let (e, fs, rest) = parse_node toks in
+      match rest with
+      | "c" :: tl -> Trace (e, fs, Some (build tl))
+      | _ -> Trace (e, fs, None) in
+    let t = build toks in
+    let text = print_trace t in
+    let back = parse_trace text in
+    "p=" ^ hex_of_str text ^ ";rt=" ^ b2s (back = Some t) ^
+    ";rp=" ^ b2s (match back with Some t' -> print_trace t' = text | None -> false)
   | [] | [""] -> ""
   | op :: _ -> "UNKNOWN-OP " ^ op
 
